@@ -242,7 +242,7 @@ class Gen:
     (unknown names, wrong arity, errors in the wrong place, unknown targets, bad deriving …)."""
 
     NAMES = ['t0', 't1', 't2', 't3', 'x', 'y', 'foo_bar', 'Zed', 'a1', 'enumx', 'mainly']
-    NSS = [[], ['n1'], ['n1', 'n2'], ['n3'], ['n1', 'n2', 'n4'], ['m_x']]
+    NSS = [[], ['n1'], ['n1', 'n2'], ['n3'], ['n1', 'n2', 'n4'], ['m_x'], ['n1', 'n2', 'n1'], ['n3', 'n3']]
     FLAGS_OK = ['+cpp', '-cpp', '+java', '-java', '+objc', '-objc', '+cppcli', '-cppcli', '+yaml', '-yaml', '+any']
     FLAGS_BAD = ['+zz', '-zz', '+jav']
 
@@ -349,8 +349,14 @@ class Gen:
         return {'name': self.spell(r.choice(cands)), 'args': [], 'opt': r.random() < 0.2}
 
     def tref(self, depth=0, want='nonerror'):
-        if self.allow_fn_types and depth < 2 and self.r.random() < 0.1:
-            return {'fn': self.fnsig(depth + 1, keyword=self.r.random() < 0.4)}
+        if self.allow_fn_types and depth < 2 and self.r.random() < 0.12:
+            pool = self.__dict__.setdefault('_fn_pool', [])
+            if pool and self.r.random() < 0.35:
+                import copy
+                return {'fn': copy.deepcopy(self.r.choice(pool))}      # the same inline signature again, elsewhere
+            f = self.fnsig(depth + 1, keyword=self.r.random() < 0.4)
+            pool.append(f)
+            return {'fn': f}
         return self.dtype(0, want)
 
     def fnsig(self, depth=0, keyword=False):
@@ -547,19 +553,65 @@ class Render:
         return out
 
     def program(self, decls, ns_style=None):
-        """wrap each declaration in its namespace (single dotted block or nested blocks)"""
-        toks = []
+        """Render the declarations inside a namespace *tree*: declarations that share a namespace prefix may
+        share a block, blocks are written nested or with dotted names (different segment counts at different
+        levels), and declarations may follow an inner block inside the same outer block.
+        `self.order` is the list of declarations in the order they appear in the text."""
+        self.order = []
+        if self.r is None or (self.style == 'min' and len(decls) == 1):
+            toks = []
+            for d in decls:
+                body = self.decl(d)
+                if d['ns']:
+                    body = ['namespace', '.'.join(d['ns']), '{'] + body + ['}']
+                toks += body
+                self.order.append(d)
+            return toks
+        r = self.r
+        # partition the declarations into groups that will share one top-level tree (keeps relative order inside a group)
+        groups = []
         for d in decls:
-            body = self.decl(d)
-            ns = d['ns']
-            if ns:
-                dotted = (self.r.random() < 0.5) if self.r is not None else True
-                if dotted:
-                    body = ['namespace', '.'.join(ns), '{'] + body + ['}']
-                else:
-                    for part in reversed(ns):
-                        body = ['namespace', part, '{'] + body + ['}']
-            toks += body
+            if groups and r.random() < 0.55:
+                r.choice(groups).append(d)
+            else:
+                groups.append([d])
+        toks = []
+        for g in groups:
+            toks += self._tree(g)
+        return toks
+
+    def _tree(self, group):
+        root = {'decls': [], 'kids': {}, 'kid_order': []}
+        for d in group:
+            node = root
+            for part in d['ns']:
+                if part not in node['kids']:
+                    node['kids'][part] = {'decls': [], 'kids': {}, 'kid_order': []}
+                    node['kid_order'].append(part)
+                node = node['kids'][part]
+            node['decls'].append(d)
+        return self._emit(root)
+
+    def _emit(self, node):
+        r = self.r
+        items = [('d', d) for d in node['decls']] + [('k', k) for k in node['kid_order']]
+        r.shuffle(items)
+        # make it likely that something follows an inner block
+        if r.random() < 0.6:
+            items.sort(key=lambda it: 0 if it[0] == 'k' else 1)
+        toks = []
+        for it in items:
+            if it[0] == 'd':
+                toks += self.decl(it[1])
+                self.order.append(it[1])
+            else:
+                name, child = it[1], node['kids'][it[1]]
+                # merge single-child chains into a dotted name, sometimes
+                while not child['decls'] and len(child['kid_order']) == 1 and r.random() < 0.6:
+                    nxt = child['kid_order'][0]
+                    name += '.' + nxt
+                    child = child['kids'][nxt]
+                toks += ['namespace', name, '{'] + self._emit(child) + ['}']
         return toks
 
 
